@@ -131,12 +131,14 @@ type world struct {
 	nIDs          int
 
 	// auditor state
-	cur      map[uint64]tver
-	lastRev  uint64
-	history  map[uint64][]tver
-	deleted  map[uint64]time.Duration
-	userVer  int
-	userBusy bool
+	cur       map[uint64]tver
+	lastRev   uint64
+	history   map[uint64][]tver
+	deleted   map[uint64]time.Duration
+	overtaken map[uint64]bool // objects that were changed or deleted while an Update of theirs ran
+	stuckID   uint64          // object named by the last failed convergence test
+	userVer   int
+	userBusy  bool
 
 	probes   map[string]int
 	faults   map[string]int
@@ -174,7 +176,7 @@ func stackOf(s string) string {
 func Run(t *testing.T, prop, tier string, c *simcore.Choices, full bool) *simcore.RunResult {
 	res := &simcore.RunResult{}
 	w := &world{t: t, prop: prop, c: c, probes: map[string]int{}, faults: map[string]int{}, states: map[uint64]struct{}{},
-		cur: map[uint64]tver{}, history: map[uint64][]tver{}, deleted: map[uint64]time.Duration{}}
+		cur: map[uint64]tver{}, history: map[uint64][]tver{}, deleted: map[uint64]time.Duration{}, overtaken: map[uint64]bool{}}
 	_, perr := simcore.InBubble(t, func() { w.run(full, tier) })
 	if perr != nil {
 		res.Harness = fmt.Sprint(perr)
@@ -794,6 +796,10 @@ func (o *opsSeam) finish(a *attempt) error {
 	a.ok = !fail
 	a.done = true
 	a.end = w.S.Now()
+	if cur, ok := w.cur[a.id]; !a.del && (!ok || cur.ver != a.ver) {
+		// the object was changed or deleted while this Update ran
+		w.overtaken[a.id] = true
+	}
 	o.rc.last[a.id] = a
 	if fail {
 		w.faults["operation-failed"]++
